@@ -48,26 +48,50 @@ func NewGuardianSets(
 }
 
 func (gs *GuardianSets) GetGuardianSet(ctx context.Context, index int) (*common.GuardianSet, error) {
-	if index <= gs.currentGuardianSetIndex {
-		return gs.guardianSetLists[index], nil
+	guardianSet, currentIndex := gs.lookup(index)
+	if index <= currentIndex {
+		return guardianSet, nil
 	}
 
 	// Perhaps the guardian set has been updated and we need to query from the chain
-	guardianSets, err := gs.getGuardianSetsRange(ctx, uint32(gs.currentGuardianSetIndex+1), uint32(index))
+	guardianSets, err := gs.getGuardianSetsRange(ctx, uint32(currentIndex+1), uint32(index))
 	if err != nil {
 		return nil, err
 	}
 	gs.updateGuardianSets(guardianSets)
 	gs.guardianSetC <- gs.GetCurrentGuardianSet()
 
-	if index > gs.currentGuardianSetIndex {
-		return nil, fmt.Errorf("invalid guardian index %v, current guardian set index: %v", index, gs.currentGuardianSetIndex)
+	guardianSet, currentIndex = gs.lookup(index)
+	if index > currentIndex {
+		return nil, fmt.Errorf("invalid guardian index %v, current guardian set index: %v", index, currentIndex)
 	}
-	return gs.guardianSetLists[index], nil
+	return guardianSet, nil
+}
+
+// lookup reads the current index and, if index is not beyond it, the guardian set at index,
+// under the lock that updateGuardianSets holds while it changes both.
+func (gs *GuardianSets) lookup(index int) (*common.GuardianSet, int) {
+	gs.lock.Lock()
+	defer gs.lock.Unlock()
+
+	if index <= gs.currentGuardianSetIndex {
+		return gs.guardianSetLists[index], gs.currentGuardianSetIndex
+	}
+	return nil, gs.currentGuardianSetIndex
 }
 
 func (gs *GuardianSets) GetCurrentGuardianSet() *common.GuardianSet {
+	gs.lock.Lock()
+	defer gs.lock.Unlock()
+
 	return gs.guardianSetLists[gs.currentGuardianSetIndex]
+}
+
+func (gs *GuardianSets) currentIndex() int {
+	gs.lock.Lock()
+	defer gs.lock.Unlock()
+
+	return gs.currentGuardianSetIndex
 }
 
 func (gs *GuardianSets) UpdateGuardianSet(ctx context.Context) {
@@ -80,7 +104,7 @@ func (gs *GuardianSets) updateGuardianSet(ctx context.Context) {
 	for {
 		select {
 		case <-tick.C:
-			guardianSets, err := GetGuardianSetsFromChain(ctx, gs.ethRpcUrl, gs.ethGovernanceAddress, uint32(gs.currentGuardianSetIndex+1))
+			guardianSets, err := GetGuardianSetsFromChain(ctx, gs.ethRpcUrl, gs.ethGovernanceAddress, uint32(gs.currentIndex()+1))
 			if err != nil {
 				gs.logger.Error("failed to get guardian sets", zap.Error(err))
 				continue
@@ -114,8 +138,8 @@ func (gs *GuardianSets) updateGuardianSets(guardianSets []*common.GuardianSet) e
 		}
 	}
 
-	gs.currentGuardianSetIndex = int(maxGuardianSetIndex)
 	gs.guardianSetLists = append(gs.guardianSetLists, guardianSets[index:]...)
+	gs.currentGuardianSetIndex = int(maxGuardianSetIndex)
 
 	if len(gs.guardianSetLists) != gs.currentGuardianSetIndex+1 {
 		return fmt.Errorf("invalid guardian sets, currentGuardianSetIndex: %v, guardianSetSize: %v", gs.currentGuardianSetIndex, len(gs.guardianSetLists))
